@@ -130,15 +130,6 @@ def blkFixpnt (w n r : Nat) (sat : Bool) (op : String) (args : List String) : Ex
 /-- known-finding classes of C12 (decidable on the inputs) -/
 def blkClass (fam : String) (n : Nat) (op : String) (args : List String) : String :=
   match op, args with
-  | "shl", [as, ks] | "shr", [as, ks] =>
-    -- D7: blockbinary::operator<<= does not mask the MSU: bits shifted beyond nbits stay in the storage, and how
-    -- many of them survive depends on the block width
-    if fam == "integer" then "" else
-    match parseHex as, parseInt ks with
-    | some a, some c =>
-      let left : Int := if op == "shl" then c else -c
-      if left > 0 && left ≤ (n : Int) && a * 2 ^ left.toNat ≥ 2 ^ n then "blockbinary.shl.stale_bits" else ""
-    | _, _ => ""
   | "div", [as, bs] | "rem", [as, bs] =>
     -- native INT_MIN / -1 traps only in the instantiation whose block is exactly nbits wide (32 or 64)
     if fam == "fixpnt" then "" else
